@@ -465,6 +465,24 @@ func registerStdIntrinsics(in map[string]Intrinsic) {
 		}
 		return BoolConst(x.Off < y.Off+y.Len && y.Off < x.Off+x.Len), ctlNext
 	}
+	// maps.clone (linknamed to the runtime): a new map object with the same entries
+	in["maps.clone"] = func(w *Worker, g *G, fr *Frame, fn *ssa.Function, a []Value) (Value, ctl) {
+		iv, ok := a[0].(IfaceV)
+		if !ok {
+			unsupported("maps.clone of %s", showValue(a[0]))
+		}
+		m, ok := iv.V.(MapV)
+		if !ok {
+			unsupported("maps.clone of %s", showValue(iv.V))
+		}
+		if m.O == nil {
+			return iv, ctlNext
+		}
+		md := w.st.load(m.O).(*MapData)
+		nd := &MapData{K: append([]Value(nil), md.K...), V: append([]Value(nil), md.V...)}
+		o := w.st.alloc(m.O.Typ, "map", nd)
+		return IfaceV{T: iv.T, V: MapV{o}}, ctlNext
+	}
 	in["runtime.KeepAlive"] = noop
 	in["runtime.GC"] = noop
 	in["runtime.Gosched"] = noop
